@@ -244,7 +244,7 @@ func (s *unsyncSink) WriteTo(b []byte, ap netip.AddrPort) error {
 	}
 	return nil
 }
-func (s *unsyncSink) Close() error                              { s.closed.Add(1); return nil }
+func (s *unsyncSink) Close() error { s.closed.Add(1); return nil }
 
 // template builds the probe the code under test will emit for ttl from the predictable flow identity.
 func (w *Wire) template(ttl int, sport int, isn uint32) []byte {
